@@ -463,8 +463,9 @@ func (c *collection) create(
 		return err
 	}
 
-	// check if doc already exists
-	exists, isDeleted, err := c.exists(ctx, primaryKey)
+	// Check if doc already exists. This must not depend on whether the requester may read the
+	// document: a create must never write over a document that exists.
+	exists, isDeleted, err := c.existsInStore(ctx, primaryKey)
 	if err != nil {
 		return err
 	}
@@ -1016,6 +1017,14 @@ func (c *collection) exists(
 		return false, false, nil
 	}
 
+	return c.existsInStore(ctx, primaryKey)
+}
+
+// existsInStore checks for the existence of the document in the store, whoever is asking.
+func (c *collection) existsInStore(
+	ctx context.Context,
+	primaryKey keys.PrimaryDataStoreKey,
+) (exists bool, isDeleted bool, err error) {
 	txn := datastore.CtxMustGetTxn(ctx)
 	val, err := txn.Datastore().Get(ctx, primaryKey.Bytes())
 	if err != nil && errors.Is(err, corekv.ErrNotFound) {
